@@ -134,6 +134,7 @@ impl World for Reactions {
             log: false,
             clone_config: false,
             stale_state: false,
+            nest: 0,
         });
         let data = Arc::new(Mutex::new(ObsData::default()));
         let mut obs = Obs::<RealP>::new(tcase, data);
